@@ -128,6 +128,7 @@ static inline void __v_memset(u8 *d, u8 c, u64 n) {
 void *memcpy(void *, const void *, size_t);
 void *memmove(void *, const void *, size_t);
 void *memset(void *, int, size_t);
+int toupper(int);
 #define __v_memcpy_c(d, s, n) ((void)memcpy((d), (s), (n)))
 #define __v_memmove_c(d, s, n) ((void)memmove((d), (s), (n)))
 #define __v_memset_c(d, c, n) ((void)memset((d), (c), (n)))
